@@ -2,7 +2,10 @@
 (***************************************************************************************)
 (* Exhaustive exploration of Metadata: every command sequence up to MaxDepth over        *)
 (* Topics x Nodes x Counts x Addrs, including duplicates (CreateTopic on an existing     *)
-(* topic, repeated rollovers, re-upserts), rollovers of unknown topics and undecodable   *)
+(* topic, repeated rollovers, re-upserts), rollovers of unknown topics, rollovers whose   *)
+(* count would overflow the cumulative offset (MaxU64 is small here so that this branch   *)
+(* is reached; the runner scales counts by floor(u64::MAX / MaxU64) for the real code,    *)
+(* which makes the real checked_add fail exactly when Overflows holds) and undecodable    *)
 (* commands.                                                                            *)
 (*                                                                                     *)
 (* `hist` (the commands that led here, with the value each returned) is hidden by VIEW;  *)
@@ -39,13 +42,14 @@ Do(cmd) ==
 (* one action per branch of `apply`, so that coverage shows every branch was exercised *)
 CreateNew     == \E cmd \in CreateCmds   : cmd.t \notin DOMAIN st.topics /\ Do(cmd)
 CreateExists  == \E cmd \in CreateCmds   : cmd.t \in DOMAIN st.topics    /\ Do(cmd)
-RollKnown     == \E cmd \in RolloverCmds : cmd.t \in DOMAIN st.topics    /\ Do(cmd)
+RollKnown     == \E cmd \in RolloverCmds : cmd.t \in DOMAIN st.topics /\ ~Overflows(st.topics[cmd.t], cmd.c) /\ Do(cmd)
+RollOverflow  == \E cmd \in RolloverCmds : cmd.t \in DOMAIN st.topics /\ Overflows(st.topics[cmd.t], cmd.c)  /\ Do(cmd)
 RollUnknown   == \E cmd \in RolloverCmds : cmd.t \notin DOMAIN st.topics /\ Do(cmd)
 UpsertNew     == \E cmd \in UpsertCmds   : cmd.n \notin DOMAIN st.nodes  /\ Do(cmd)
 UpsertAgain   == \E cmd \in UpsertCmds   : cmd.n \in DOMAIN st.nodes     /\ Do(cmd)
 Undecodable   == \E cmd \in BadCmds      : cmd.k = "X"                   /\ Do(cmd)
 
-MCNext == CreateNew \/ CreateExists \/ RollKnown \/ RollUnknown \/ UpsertNew \/ UpsertAgain \/ Undecodable
+MCNext == CreateNew \/ CreateExists \/ RollKnown \/ RollOverflow \/ RollUnknown \/ UpsertNew \/ UpsertAgain \/ Undecodable
 MCSpec == MCInit /\ [][MCNext]_mvars
 
 (* apply never fails to produce a value and a state *)
